@@ -74,4 +74,22 @@ CONTRACTS = {
         split=[{"bind": {"key": k}} for k in KEYS30[0::2]] + [{"assume": "not is_major_key(key)"}],
         properties=["C04"], battery="key_strings",
     ),
+    M + "Key.__init__": dict(
+        params={"self": "Key", "key": "str"},
+        returns="None",
+        ensures=[("key-kept", "self.key == key"),
+                 ("mode", "self.mode == ('minor' if key[0] in 'abcdefg' else 'major')"),
+                 ("signature", "self.signature == key_sig(key)"),
+                 ("name", "self.name == key_display_name(key)")],
+        raises={"NoteFormatError": "not is_key(key)"},
+        modifies=["param:self"],
+        split=[{"bind": {"key": k}} for k in KEYS30] + [{"assume": "not is_key(key) and len(key) >= 1"}],
+        split_covers="len(key) >= 1",
+        requires="len(key) >= 1",
+        properties=["C04"], battery="key_init",
+    ),
+}
+
+CLASSES = {
+    "Key": {"class": "mingus.core.keys.Key", "fields": {}},
 }
